@@ -54,6 +54,7 @@ func baseAlphabet() []msg {
 		{"helloReady", shipx.Hello("ready", 60000, 0), "hello"},
 		{"helloReadyNoWait", shipx.Hello("ready", -1, 0), "hello"},
 		{"helloReadyShort", shipx.Hello("ready", 999, 0), "hello"},
+		{"helloReadyMid", shipx.Hello("ready", 5000, 0), "hello"},
 		{"helloPending", shipx.Hello("pending", 60000, 0), "hello"},
 		{"helloPendingShort", shipx.Hello("pending", 500, 0), "hello"},
 		{"helloPendingProlong", shipx.Hello("pending", -1, 1), "hello"},
